@@ -491,6 +491,9 @@ def cholesky_band(l, mininf=0.0):
         lower = l.copy()
         kn = bw - 1
         spot = np.arange(kn, dtype='i4') + 1
+        bi = np.arange(kn, dtype='i4')
+        for i in range(1, kn):
+            bi = np.append(bi, np.arange(kn-i, dtype='i4')+(kn+1)*i)
         for j in range(n):
             lower[0, j] = np.sqrt(lower[0, j])
             lower[spot, j] /= lower[0, j]
@@ -498,6 +501,9 @@ def cholesky_band(l, mininf=0.0):
             if not np.all(np.isfinite(x)):
                 warn('NaN found in cholesky_band.', PydlutilsUserWarning)
                 return (j, l)
+            hmm = np.outer(x, x)
+            lower.T.flat[bi+(j+1)*bw] -= hmm.flat[bi]
+        lower = lower[:, 0:n]
     #
     # Restore padding.
     #
